@@ -55,12 +55,21 @@ func c17(tier string) int {
 	pools := map[int]*pool.Pool{}
 	for _, k := range ks {
 		p := pool.New(4)
+		p.Timeout = 20 * time.Minute // a deadline of the harness, never an oracle: a build that hits it is reported as not decided
 		p.Exe = exe
 		p.Env = []string{fmt.Sprintf("VERIF_MAPITER=%d", k)}
 		pools[k] = p
 		defer p.Close()
 	}
-	progs := []diffrun.Program{repro.Program(), generic.Program(), dcex.Program()}
+	progs := []diffrun.Program{repro.Program(), generic.Program(), dcex.Program(), repro.OrderProgram(), repro.LineProgram()}
+	// the corpus of the other families: every program built in fresh processes under different map iteration starts
+	corp := corpus(thorough)
+	inCorpus := map[string]bool{}
+	for _, p := range corp {
+		p.Name = "corpus_" + p.Name
+		inCorpus[p.Name] = true
+		progs = append(progs, p)
+	}
 	dirs := map[string]string{}
 	for _, p := range progs {
 		d, err := env.WriteProgram(p)
@@ -89,6 +98,10 @@ func c17(tier string) int {
 			mu.Lock()
 			defer mu.Unlock()
 			builds++
+			if !res.OK && (res.Class == "timeout" || res.Class == "harness") {
+				env.HarnessMsg(fmt.Sprintf("C17 build %s %s [mapiter=%d] not decided: %s", k.prog, desc, mapiter, res.Err))
+				return
+			}
 			if !res.OK {
 				rep.Violation(fmt.Sprintf("C17/%s/%s/min=%v/map=%v/build/%s", k.prog, k.mode, k.minify, k.mp, desc), "build fails: "+res.Err, nil)
 				return
@@ -103,9 +116,29 @@ func c17(tier string) int {
 	n := 0
 	for _, p := range progs {
 		dir := dirs[p.Name]
+		if inCorpus[p.Name] {
+			for _, minify := range []bool{false, true} {
+				if minify && !thorough {
+					continue
+				}
+				kd := key{p.Name, "dir", minify, minify}
+				cks := []int{0, 3}
+				if thorough {
+					cks = []int{0, 1, 3, 6}
+				}
+				for _, k := range cks {
+					n++
+					run(kd, "fresh", k, gjs.Request{Dir: dir, Out: filepath.Join(dir, fmt.Sprintf("b%d", n), "out.js")})
+				}
+			}
+			continue
+		}
 		for _, minify := range []bool{false, true} {
 			for _, mp := range []bool{false, true} {
 				if !thorough && minify && mp && p.Name != "c17_files" {
+					continue
+				}
+				if !thorough && minify != mp && (p.Name == "c17_order" || p.Name == "c17_line") {
 					continue
 				}
 				kd := key{p.Name, "dir", minify, mp}
@@ -114,12 +147,21 @@ func c17(tier string) int {
 					run(kd, "fresh", k, gjs.Request{Dir: dir, Out: filepath.Join(dir, fmt.Sprintf("b%d", n), "out.js")})
 					n++
 					run(kd, "twice-in-one-session", k, gjs.Request{Dir: dir, Out: filepath.Join(dir, fmt.Sprintf("b%d", n), "out.js"), Twice: true})
-					for _, other := range progs {
-						if other.Name == p.Name {
+					for _, other := range progs[:4] {
+						if other.Name == p.Name || p.Name == "c17_line" {
 							continue
 						}
 						n++
 						run(kd, "after-"+other.Name, k, gjs.Request{Dir: dir, Out: filepath.Join(dir, fmt.Sprintf("b%d", n), "out.js"), Prior: []string{dirs[other.Name]}})
+					}
+				}
+				if p.Name == "c17_line" {
+					// all 24 orders of four files that carry the same //line directive
+					kf := key{p.Name, "files", minify, mp}
+					for pi, perm := range permutations(repro.LineFiles()) {
+						files := append(append([]string{}, perm...), "h_js.go", "h_common.go")
+						n++
+						run(kf, "order="+strings.Join(perm, ","), ks[pi%len(ks)], gjs.Request{Dir: dir, Out: filepath.Join(dir, fmt.Sprintf("out%d", n), "out.js"), Files: files})
 					}
 				}
 				if p.Name == "c17_files" {
@@ -181,7 +223,7 @@ func c17(tier string) int {
 	cov := map[string]any{
 		"evaluations":         builds,
 		"distinct_nontrivial": groups,
-		"rule":                "group = (program, build mode, minify, source map); builds within a group vary the compiler-side map iteration start (runtime/map.go overlay, VERIF_MAPITER in the list below, hash seed fixed), the session history (fresh session, the same package built twice in one session, after building each other program in the same session), and - for the four-file package - the order in which the files are listed (permutations of the four files, helper files before or after), all in separate worker processes; the sha256 of the JavaScript and of the source map must be identical within a group",
+		"rule":                "programs: the four-file program (closures, generic instances, anonymous types, linknames, a two-file dependency), the generics and reachability programs, an order program (closures in every clause of a type switch in a loop, escaping variables at several depths, a dozen anonymous types, 13+5 generic instances, a flattened function with labels and select, cross-package initialisers, five standard imports), a package whose four files carry the same //line directive (all 24 listing orders), and the corpus of the other families (each program built in fresh processes under 2 [4] map iteration starts); group = (program, build mode, minify, source map); builds within a group vary the compiler-side map iteration start (runtime/map.go overlay, VERIF_MAPITER in the list below, hash seed fixed), the session history (fresh session, the same package built twice in one session, after building each other program in the same session), and - for the four-file package - the order in which the files are listed (permutations of the four files, helper files before or after), all in separate worker processes; the sha256 of the JavaScript and of the source map must be identical within a group",
 		"samples":             samples,
 		"groups":              groups,
 		"map_iteration_starts": ks,
@@ -196,6 +238,9 @@ func c17(tier string) int {
 	if rep.Viol > 0 {
 		rep.Summary()
 		return 1
+	}
+	if len(env.Harness) > 0 {
+		fmt.Printf("C17 %s: %d builds hit the harness deadline and were not decided (exhaustive=false)\n", tier, len(env.Harness))
 	}
 	return 0
 }
